@@ -32,3 +32,27 @@ def cm_insert_coin_count():
         ensures=[C("wf", "final(self).wf()", "C20"),
                  C("coins", "final(self)@.coins == old(self)@.coins", "C20", "C02"),
                  C("counts", "final(self)@.counts == (if count == 0 { old(self)@.counts.remove(covhash) } else { old(self)@.counts.insert(covhash, count as nat) })", "C20")])
+
+
+# ---- tip911-stakeset
+def ss_add_stake():
+    return dict(ensures=[C("exact", "final(self)@ == old(self)@.insert(txhash, stake)", "C13")])
+
+def ss_get_stake():
+    return dict(ensures=[C("exact", "res == (if self@.contains_key(txhash) { Some(self@[txhash]) } else { None::<StakeDoc> })", "C13")])
+
+def ss_votes():
+    return dict(requires=[C("fits", "spec_staked_total(self@) <= u128::MAX", note="C09 envelope: total staked SYM fits in u128 (supply <= 2^127)")],
+                ensures=[C("sum", "res as int == spec_votes(self@, epoch, Some(key))", "C13", "C14")])
+
+def ss_total_votes():
+    return dict(requires=[C("fits", "spec_staked_total(self@) <= u128::MAX")],
+                ensures=[C("sum", "res as int == spec_votes(self@, epoch, None)", "C13", "C14")])
+
+def ss_unlock_old():
+    return dict(ensures=[C("keeps", "forall|k: TxHash| #[trigger] final(self)@.contains_key(k) <==> (old(self)@.contains_key(k) && old(self)@[k].e_post_end >= epoch)", "C13"),
+                         C("same", "forall|k: TxHash| final(self)@.contains_key(k) ==> #[trigger] final(self)@[k] == old(self)@[k]", "C13")])
+
+# ---- state.rs
+def st_header():
+    return dict(ensures=[C("is", "res == spec_header(self.0)", "C07", "C06")])
